@@ -6,7 +6,7 @@ LENS = 'topic'
 TRACE_MODULE = 'Trace_IggyTopic'
 MSG = 61   # bytes per 16-byte-payload message; a persisted batch adds 24
 
-FAMILIES = {'C15': ['limit'], 'C16': ['counts', 'limit'], 'C17': ['select']}
+FAMILIES = {'C15': ['limit'], 'C16': ['counts', 'limit'], 'C17': ['select', 'rotate']}
 LABELS = {'C15': ('C15.',), 'C16': ('C16.',), 'C17': ('C17.',)}
 
 GEN = {
@@ -15,6 +15,10 @@ GEN = {
                               Ops='{"send","set_limit","maintain","restart","purge"}'), both_del=True),
     'select': dict(consts=dict(P0Set='{1,3}', MaxP=3, Keys='{"ka","kb"}', MaxMsgs=6, MaxBatch=2, LimitSet='{0}', SegCap=3,
                                Ops='{"send","add_parts","del_parts","restart"}'), both_del=False),
+    # balanced sends only, interleaved with partition additions / removals: EVERY history of 4 (thorough 6) operations from 3 partitions
+    'rotate': dict(consts=dict(P0Set='{3}', MaxP=3, Keys='{"ka"}', MaxMsgs=8, MaxBatch=1, LimitSet='{0}', SegCap=3, Kinds='{"balanced"}',
+                               Ops='{"send","add_parts","del_parts","restart"}'), both_del=False,
+                   gen_maxops=dict(quick=3, thorough=5), budget=dict(quick=1500, thorough=20000), cfgs_per_script=1, walks=dict(quick=20, thorough=200)),
     'counts': dict(consts=dict(P0Set='{2}', MaxP=3, Keys='{"ka"}', MaxMsgs=6, MaxBatch=2, LimitSet='{0}', SegCap=2,
                                Ops='{"send","add_parts","del_parts","purge","restart","send_other"}'), both_del=False),
 }
@@ -27,6 +31,7 @@ def mc_family(family, tier, wd):
     res = None
     for dele in (['TRUE', 'FALSE'] if g['both_del'] else ['FALSE']):
         consts = dict(g['consts']); consts['DelOldest'] = dele
+        consts.setdefault('Kinds', '{"id","key","balanced"}')
         consts['MaxOps'] = 5 if tier == 'quick' else 7
         if tier == 'quick':
             consts['MaxMsgs'] = min(5, consts['MaxMsgs'])
@@ -51,6 +56,9 @@ def cfgs_for(family, tier):
         d = dict(cache='off', cache_indexes=True, fsync=False, confirmation='wait', save_threshold=thr, segment_bytes=seg * MSG)
         d.update(kw); return d
     m = [c(1, 2), c(1000, 2), c(2, 3, cache='large'), c(1, 3, cache_indexes=False), c(3, 2)]
+    if family == 'counts':
+        # server-side encryption changes the stored size of every message: the reported sizes must follow
+        m += [c(1, 2, encryption=True), c(1000, 3, encryption=True, cache='large')]
     if family == 'select':
         m += [c(1000, 0), c(1, 0, cache='large')]
     if tier == 'thorough':
@@ -84,7 +92,8 @@ def gen_scripts(family, tier, wd, seed):
     out = []
     for dele in (['TRUE', 'FALSE'] if g['both_del'] else ['FALSE']):
         consts = dict(g['consts']); consts['DelOldest'] = dele
-        consts['MaxOps'] = 3 if tier == 'quick' else 4
+        consts.setdefault('Kinds', '{"id","key","balanced"}')
+        consts['MaxOps'] = g.get('gen_maxops', dict(quick=3, thorough=4))[tier]
         cfg = os.path.join(wd, f'Gen_{family}_{dele}.cfg')
         write_cfg(cfg, 'MCSpec', consts, invariants=['EmitScript'], constraint='Bounded')
         t0 = time.time()
@@ -93,7 +102,7 @@ def gen_scripts(family, tier, wd, seed):
         cfg2 = os.path.join(wd, f'Sim_{family}_{dele}.cfg')
         write_cfg(cfg2, 'MCSpec', consts2, invariants=['EmitScript'], constraint='Bounded')
         walks = tlc_scripts('MC_IggyTopic', cfg2, wd, workers=1, timeout=600,
-                            simulate=(50 if tier == 'quick' else 500, consts2['MaxOps'] + 1), seed=seed)
+                            simulate=(g.get('walks', dict(quick=50, thorough=500))[tier], consts2['MaxOps'] + 1), seed=seed)
         log(f'{family}/{dele}: {len(paths)} path-cover scripts, {len(walks)} walks in {time.time() - t0:.0f}s')
         out.append((dele == 'TRUE', paths, walks))
     return out
@@ -115,7 +124,7 @@ def build_scenarios(families, tier, wd, seed):
     n = 0
     for fam in families:
         cfgs = cfgs_for(fam, tier)
-        budget = {'quick': 120, 'thorough': 3000}[tier]
+        budget = GEN[fam].get('budget', {'quick': 120, 'thorough': 3000})[tier]
         tot_p = tot_w = 0
         for dele, paths, walks in gen_scripts(fam, tier, wd, seed):
             if len(paths) > budget:
@@ -123,10 +132,10 @@ def build_scenarios(families, tier, wd, seed):
             tot_p += len(paths); tot_w += len(walks)
             for s in paths + walks:
                 # the model's initial state (partition count, limit) is not in the script: draw it as the model does
-                for cfg in rnd.sample(cfgs, 2 if tier == 'quick' else 3):
+                for cfg in rnd.sample(cfgs, GEN[fam].get('cfgs_per_script', 2 if tier == 'quick' else 3)):
                     cfg = dict(cfg); cfg['delete_oldest'] = dele
                     seg = cfg['segment_bytes'] or 1_000_000_000
-                    p0 = rnd.choice([1, 2] if fam == 'limit' else ([1, 3] if fam == 'select' else [2]))
+                    p0 = rnd.choice([1, 2] if fam == 'limit' else ([1, 3] if fam == 'select' else ([3] if fam == 'rotate' else [2])))
                     lim_units = rnd.choice([0, 4]) if fam == 'limit' else 0
                     n += 1
                     scenarios.append(dict(id=f'{fam}-{n}', family=fam, cfg=cfg, seed=rnd.randrange(1 << 30), parts=p0,
